@@ -8,8 +8,8 @@ Str1 == Syms
 Str2 == {a \o b : a \in Syms, b \in Syms}
 Str3 == {a \o b : a \in Str2, b \in Syms}
 Casings(S) == S \cup {LowerS(t) : t \in S} \cup {UpperS(t) : t \in S} \cup {MixS(t) : t \in S}
-TagStrings == {<<>>} \cup Str1 \cup Str2 \cup Str3 \cup Casings(KnownTags) \cup {<<97,110,121>>, <<65,114,116,105,115,116,32>>, <<65,114,116,105,115,116,10>>, <<102,105,108,101>>}
-TagOthers == Casings(KnownTags) \cup {<<97,110,121>>, <<120>>, <<>>, <<65,114,116,105,115,116,32>>}
+TagStrings == {<<>>} \cup Str1 \cup Str2 \cup Str3 \cup Casings(KnownTags) \cup Casings({<<97,110,121>>, <<65,110,121>>, <<97,78,121>>}) \cup {<<97,110,121>>, <<65,114,116,105,115,116,32>>, <<65,114,116,105,115,116,10>>, <<102,105,108,101>>}
+TagOthers == Casings(KnownTags) \cup Casings({<<97,110,121>>}) \cup {<<97,110,121>>, <<120>>, <<>>, <<65,114,116,105,115,116,32>>}
 SubOthers == Casings(KnownSubsystems) \cup {<<122,122,102,117,116,117,114,101>>, <<>>, <<112,108,97,121,101,114,32>>}
 GenEmit == PrintT(<<"CASE", ToJson([tag_strings |-> SetToSeq(TagStrings), tag_others |-> SetToSeq(TagOthers), sub_others |-> SetToSeq(SubOthers)])>>)
 GenInit == i = 0 /\ GenEmit
